@@ -1,4 +1,4 @@
 CONSTANTS P = 103  A = 0  B = 5  Gx = 2  Gy = 42  N = 97  WithText = FALSE
-CONSTANTS DSet <- DFew  ESet <- ETwo  KSet <- KAll  HSet <- HSix  RSet <- RFew  SSet <- SFive  ERSet <- EOne
+CONSTANTS DSet <- DThree  ESet <- ETwo  KSet <- KAll  HSet <- HSix  RSet <- RBound  SSet <- SFive  ERSet <- EOne
 SPECIFICATION Spec
 CHECK_DEADLOCK FALSE
